@@ -379,6 +379,12 @@ static ssize_t ck_read(void* cookie, char* buf, size_t size) {
     W->trace.ev("dev_read", h->id, h->pos, n);
     W->trace.bytes(buf, n);
     h->pos += n;
+    if (h->pos > h->high_water) {
+        // the event budget is a livelock guard: transfers that reach new ground extend it, so that a long
+        // file read or written in tiny pieces is not mistaken for a loop (re-reading old ground earns nothing)
+        if (W->event_budget != INT64_MAX) W->event_budget += (int64_t)(4 * (h->pos - h->high_water));
+        h->high_water = h->pos;
+    }
     h->dev_reads++;
     fs.n_dev_read++;
     fs.bytes_read += n;
@@ -429,6 +435,10 @@ static ssize_t ck_write(void* cookie, const char* buf, size_t size) {
         return (ssize_t)apply;  // short write; glibc reports the error to the caller
     }
     h->pos += size;  // position advances as the caller believes, also for lost writes
+    if (h->pos > h->high_water) {
+        if (W->event_budget != INT64_MAX) W->event_budget += (int64_t)(4 * (h->pos - h->high_water));
+        h->high_water = h->pos;
+    }
     return (ssize_t)size;
 }
 
